@@ -54,6 +54,8 @@ def _kw(args, kwargs, names, defaults=None):
 
 def to_str(ev, x, fr):
     k = T.tag(x)
+    if k == 'raise':
+        return x
     if k == 'const':
         v = x[1]
         if isinstance(v, (str, int, float, bool)) or v is None:
@@ -431,7 +433,8 @@ def ext_call(ev, dotted, args, kwargs, fr, node):
         return T.opaque('unknown ecdsa function %s' % dotted)
     # ---------------------------------------------------------------- process / io
     if dotted in ('sys.exit', 'os._exit', 'builtins.exit', 'builtins.quit'):
-        return T.raise_('SystemExit')
+        ev.exits.append((args[0] if args else T.const(0), fr.fn.qual if fr.fn else None, node.lineno if node is not None else 0))
+        return T.raise_('SystemExit#%d' % (len(ev.exits) - 1))
     if dotted.startswith('sys.stdout.') or dotted.startswith('sys.stderr.'):
         ev.effects.append(('stream-write', fr.fn.qual if fr.fn else None, node.lineno if node else 0, dotted))
         return T.NONE
@@ -491,7 +494,17 @@ def attr_of(ev, base, name, fr):
 
 
 def method_call(ev, recv, name, args, kwargs, fr, node):
+    if T.tag(recv) == 'raise':
+        return recv
     tb = T.type_of(recv)
+    if tb == 'argparser':
+        if name in ('exit', 'error'):
+            a = _kw(args, kwargs, ['status', 'message'], {'status': T.const(0 if name == 'exit' else 2)})
+            ev.exits.append((a['status'], fr.fn.qual if fr.fn else None, node.lineno if node is not None else 0))
+            return T.raise_('SystemExit#%d' % (len(ev.exits) - 1))
+        if name in ('print_help', 'print_usage'):
+            ev.effects.append(('argparse-help', fr.fn.qual if fr.fn else None, node.lineno if node is not None else 0, name))
+            return T.NONE
     # hashing objects
     if T.is_op(recv, 'HASHOBJ'):
         if name == 'digest':
